@@ -312,7 +312,7 @@ def scenarios(res, n_dirs):
     for relpath, kind in chosen:
         for scen in (["in-place-All", "first-broken", "repoint"] if tier == "quick" else
                      ["in-place-All", "in-place-preserved", "in-place-Prefs", "first-broken", "repoint", "repoint-All"]):
-            if tier == "quick" and rng.random() < 0.5 and scen != "first-broken":
+            if tier == "quick" and rng.random() < 0.5 and scen != "first-broken" and not (relpath == "prefs.yaml" and scen == "in-place-All"):
                 continue
             if scen == "in-place-preserved" and kind not in HARD + ["moved"]:
                 continue          # an older time stamp on changed content: outside the file-system assumption
@@ -328,8 +328,10 @@ def scenarios(res, n_dirs):
                     continue
                 h.must_report = kind in HARD and scen != "in-place-Prefs"
                 h.queries("during")
-                if kind == "bad-mid" or rng.random() < 0.3:
+                if kind == "bad-mid" or relpath == "prefs.yaml" or rng.random() < 0.3:
                     h.queries("during")        # the fault is still there: the second round of calls is affected as well
+                    if relpath == "prefs.yaml":
+                        h.queries("during")    # ... and the third
                 h.repair_all()
                 h.queries("final")
             elif scen == "first-broken":
